@@ -19,12 +19,15 @@ echo "--- demo WITH patch"
 timeout 300 go test -vet=off -count=1 -timeout 4m -run "$re" "./$pkg/" 2>&1 | grep -v "^=== \|^    --- PASS" | tail -8 | cut -c1-300
 echo "--- existing tests WITH patch (demo files removed)"
 for f in "$seed"/*_test.go; do [ -f "$f" ] && rm -f "$wt/$pkg/$(basename $f)"; done
+# the repository's tests use fixed loopback ports; a private network namespace keeps other runs on this machine out of the way
+# (the multicast package needs eth0 and stays outside)
+ns() { if [ "$1" = "multicast" ]; then shift; "$@"; else shift; unshare -n bash -c 'ip link set lo up; exec "$@"' _ "$@"; fi; }
 for p in $pkgs; do
-  timeout 900 go test -vet=off -count=1 -timeout 12m -skip 'TestCodecConnWriteNext|TestCodecConnAsyncWriteNext' "./$p/" 2>&1 | grep "^ok\|^FAIL\|^--- FAIL\|^panic" | head -5
+  ns "$p" timeout 900 go test -vet=off -count=1 -timeout 12m -skip 'TestCodecConnWriteNext|TestCodecConnAsyncWriteNext' "./$p/" 2>&1 | grep "^ok\|^FAIL\|^--- FAIL\|^panic" | head -5
   if [ "$p" = "." ]; then
     # the two tests with the channel race hang in about half of their runs on the unchanged tree: they count as passing if one of five attempts passes
     for t in TestCodecConnWriteNext TestCodecConnAsyncWriteNext; do
-      okc=0; for i in 1 2 3 4 5; do if timeout 20 go test -vet=off -count=1 -timeout 15s -run "^$t\$" . >/dev/null 2>&1; then okc=1; break; fi; done; echo "$t passes=$okc"
+      okc=0; for i in 1 2 3 4 5; do if ns . timeout 20 go test -vet=off -count=1 -timeout 15s -run "^$t\$" . >/dev/null 2>&1; then okc=1; break; fi; done; echo "$t passes=$okc"
     done
   fi
 done
